@@ -230,7 +230,7 @@ class Grid:
             periodic_dict = self._map_kwargs_over_axes(periodic, axes=all_axes)
 
         for ax, p in periodic_dict.items():
-            if boundary_dict[ax] is None:
+            if boundary_dict.get(ax) is None:
                 if p is True:
                     boundary_dict[ax] = "periodic"
                 else:
